@@ -5,14 +5,31 @@ from ..common import Case
 CHECKER = 'coqc props/C01.v (theorems in proofs/FrameP.v) + correspondence UbxFrame.to_bytes vs extracted to_bytes/wire'
 
 
-def impl_tobytes(cls_, id_, payload):
+_FRAMES = {}
+
+
+def impl_tobytes(cls_, id_, payload, reuse=False):
+    """to_bytes() twice; between the two calls the returned buffer is consumed (cleared) by the caller, as
+    a transport may do. With reuse=True the SAME frame object serves successive payloads (data replaced
+    without pack()): serialisation must depend on the current payload only."""
     from ubxlib.cid import UbxCID
     from ubxlib.frame import UbxFrame
-    F = type('F', (UbxFrame,), {'CID': UbxCID(cls_, id_), 'NAME': 'SYN'})
-    f = F()
+    key = (cls_, id_)
+    if reuse and key in _FRAMES:
+        f = _FRAMES[key]
+    else:
+        F = type('F', (UbxFrame,), {'CID': UbxCID(cls_, id_), 'NAME': 'SYN'})
+        f = F()
+        if reuse:
+            _FRAMES[key] = f
     f.data = bytearray(payload)
     fields_before = f.f
-    m1 = bytes(f.to_bytes())
+    b1 = f.to_bytes()
+    m1 = bytes(b1)
+    try:
+        b1.clear()
+    except AttributeError:
+        pass
     m2 = bytes(f.to_bytes())
     same = (f.f is fields_before) and f.CID.cls == cls_ and f.CID.id == id_
     return f'{C.hexs(m1)} {C.hexs(m2)} {C.hexs(f.data)}' + ('' if same else ' frame-changed')
@@ -33,7 +50,8 @@ def check(tier, seed):
     res.rule = ('synthetic frame class per (cls,id), payload lengths at the 8/16-bit boundaries plus seeded '
                 'lengths (thorough: every length 0..4096 and +-2 around every multiple of 255 and 256 up to 65535), '
                 'contents random/all-FF/zero/sync-dense; to_bytes() called twice; compared: both byte strings and '
-                'frame.data afterwards with model, and first call with spec wire; non-trivial = payload length >= 1')
+                'frame.data afterwards with model, and first call with spec wire; half of the cases reuse one frame object per class/id for successive '
+                'payloads and every case clears the returned buffer before the second call; non-trivial = payload length >= 1')
     with C.WorkDir('C01') as wd:
         C.audit_sources()
         pr = C.check_props('C01', wd)
@@ -58,7 +76,7 @@ def check(tier, seed):
             c, i = cids[k % len(cids)] if k % 3 else (rng.randrange(256), rng.randrange(256))
             style = rng.choice(['rand', 'rand', 'ff', 'zero', 'sync'])
             p = gen_payload(rng, n, style)
-            impl = impl_tobytes(c, i, p)
+            impl = impl_tobytes(c, i, p, reuse=(k % 2 == 0))
             desc = {'cls': c, 'id': i, 'len': n, 'style': style, 'payload_hex': C.hexs(p) if n <= 300 else C.hexs(p[:300]) + '...'}
             cases.append(Case('to_bytes', f'tobytes {c} {i} {C.hexs(p)}', impl, desc, nontrivial=n >= 1,
                               kind=f'len<{256 if n < 256 else 1001 if n <= 1000 else 65536}/{style}'))
